@@ -323,6 +323,7 @@ func (h *Hook) OnQosPublish(cl *mqtt.Client, pk packets.Packet, sent int64, rese
 		FixedHeader: pk.FixedHeader,
 		TopicName:   pk.TopicName,
 		Payload:     pk.Payload,
+		PacketID:    pk.PacketID,
 		Sent:        sent,
 		Created:     pk.Created,
 		Properties: storage.MessageProperties{
